@@ -122,6 +122,7 @@ class Interp:
         self.loop_hook = None          # fn(interp, do_node, frame, guard) -> True if handled
         self.depth = 0
         self.summarised = 0
+        self.trips = []         # (guard, trip term) of every counted DO loop
         self._collect()
 
     # ------------------------------------------------------------ program structure
@@ -753,6 +754,7 @@ class Interp:
             raw = tdiv(hi - lo + st, st)
         trip = simp(z3.If(raw > 0, raw, z3.IntVal(0)))
         tc = intval(trip)
+        self.trips.append((g, trip))
         if tc is not None:
             if tc > self.maxconc:
                 raise Unsupported("concrete trip count too large")
